@@ -21,6 +21,10 @@ var (
 	regBlockHeader = regexp.MustCompile(`(?m)^[\t ]*[^#\s][^\n]*{\n`)
 )
 
+// regRuleBlock matches a line that opens a block without being a profile header:
+// a qualifier block (owner { ... }), a conditional
+var regRuleBlock = regexp.MustCompile(`^[\t ]*(((audit|deny|allow|owner)[\t ]+)*|(if|else|})[^\n]*){\n$`)
+
 // splitFlags splits a flag list: AppArmor separates flags by commas and/or blanks
 func splitFlags(flags string) []string {
 	return strings.FieldsFunc(flags, func(r rune) bool {
@@ -45,7 +49,9 @@ func (b Complain) Apply(opt *Option, profile string) (string, error) {
 	// Edit each block header on its own, from its own flags
 	if regBlockHeader.FindString(profile) != profile {
 		return regBlockHeader.ReplaceAllStringFunc(profile, func(header string) string {
-			header, _ = b.Apply(opt, header)
+			if !regRuleBlock.MatchString(header) {
+				header, _ = b.Apply(opt, header)
+			}
 			return header
 		}), nil
 	}
